@@ -285,11 +285,24 @@ func watcherRules(p *core.Prog, r *core.Run, id string) {
 				continue
 			}
 			good := true
+			hasErrNil := false
+			for _, f := range rs.facts {
+				if isErrNil(f) {
+					hasErrNil = true
+				}
+			}
+			if !hasErrNil {
+				good = false
+				why = fmt.Sprintf("the reset at %s also runs when NewConn fails: the deadline must stay in place on the error path, otherwise the fatal alert written afterwards can block on a stalled client", p.InstrPos(rs.d.site.Instr))
+			}
 			for _, f := range rs.facts {
 				switch {
 				case isErrNil(f):
 				case f.Op == "true" && isFlagLoad(p, f, flags) && joined:
 				default:
+					if !good {
+						continue
+					}
 					good = false
 					why = fmt.Sprintf("the reset at %s is conditional on %q, which does not follow from this deadline having been set", p.InstrPos(rs.d.site.Instr), f.String())
 				}
